@@ -9,9 +9,10 @@ git -C /repo worktree add --detach "$wt" HEAD >/dev/null 2>&1 || { echo "worktre
 cleanup() { git -C /repo worktree remove --force "$wt" >/dev/null 2>&1; rm -rf "$wt"; }
 trap cleanup EXIT
 cd "$wt"
-PYTHONPATH="$wt" /venv/bin/python "$d/demo.py" >/dev/null 2>&1; r0=$?
+# the demo runs from its own directory: from the worktree root pydoctor would pick up the repo's setup.cfg
+(cd "$d" && PYTHONPATH="$wt" /venv/bin/python "$d/demo.py" >/dev/null 2>&1); r0=$?
 if ! git apply "$d/patch.diff" 2>/dev/null; then echo "RESULT $d patch-does-not-apply"; exit 3; fi
-PYTHONPATH="$wt" /venv/bin/python "$d/demo.py" >/dev/null 2>&1; r1=$?
+(cd "$d" && PYTHONPATH="$wt" /venv/bin/python "$d/demo.py" >/dev/null 2>&1); r1=$?
 if [ -z "$SKIP_TESTS" ]; then
   tests=$(/venv/bin/python -m pytest -q -p no:cacheprovider --timeout=900 pydoctor/test 2>&1 | tail -1)
 else tests="skipped"; fi
